@@ -234,10 +234,17 @@ Definition svc_display (d : bytes) : outcome (list svcval) := svc_walk (S (lengt
 (* which walk the display of a parsed record performs *)
 Inductive walk_obs :=
 | WNone                       (* nothing that iterates a checked structure *)
-| WBitmap (l : list N)
+| WBitmap (l : list N) (c : list bool)   (* types().iter(), contains() of a few probe types *)
 | WSvc (l : list svcval)
 | WTxt (l : list bytes)
 | WErr.                       (* the typed parser refused the data: nothing is displayed *)
+
+Definition probe_types : list N := [1; 2; 46; 47; 256; 65535].
+Fixpoint contains_all (d : bytes) (ts : list N) : outcome (list bool) :=
+  match ts with
+  | [] => Ok []
+  | t :: ts' => do b <- bitmap_contains d t; do rest <- contains_all d ts'; Ok (b :: rest)
+  end.
 
 Definition last_bytes (v : value) : bytes :=
   match last v (VNum 0) with VBytes b => b | _ => [] end.
@@ -256,7 +263,8 @@ Definition display_walk (m : bytes) (r : rr) : outcome walk_obs :=
         | OutOfFuel => OutOfFuel
         | Ok v =>
             if t =? 16 then do l <- txt_iter (slice m (rr_data r) lim); Ok (WTxt l)
-            else if (t =? 47) || (t =? 50) then do l <- bitmap_iter (last_bytes v); Ok (WBitmap l)
+            else if (t =? 47) || (t =? 50) then
+              do l <- bitmap_iter (last_bytes v); do c <- contains_all (last_bytes v) probe_types; Ok (WBitmap l c)
             else do l <- svc_display (last_bytes v); Ok (WSvc l)
         end
     end
